@@ -18,12 +18,33 @@ def instances(tier):
     for (p, r, t, c) in grid(tier):
         name = 'p%dr%dt%dc%d' % (p, r, t, c)
         defs = 'CfgGen == [poll |-> %d, ping_rate |-> %d, ping_timeout |-> %d, close_timeout |-> %d, auto_pong |-> TRUE]\n' % (p, r, t, c)
-        defs += 'C15Items == { F(10, 1, <<>>), F(1, 1, <<97>>), F(8, 1, <<3, 232>>) }\n'
+        defs += 'C15Items == { F(10, 1, <<>>), F(1, 1, <<97>>), F(8, 1, <<3, 232>>), F(2, 1, <<1, 2, 3, 4, 5, 6, 7, 8, 9, 10, 11, 12>>) }\n'
         out.append({"label": name, "cfg": {"poll": p, "ping_rate": r, "ping_timeout": t, "close_timeout": c, "auto_pong": True},
                     "module": sessprop.wrapper('Mon_C15', extra_defs=defs, suffix='_' + name),
                     "consts": dict(HttpItems='HttpOk', Items='C15Items', Cfg='CfgGen', MaxItems=2, ChunkMax=1,
                                    MaxIdle=4, Dts={1} if q else {0, 1, p}, Reacts={"none", "close"},
                                    ReactAt={"poll", "ready"}, MaxReacts=1)})
+    return out
+
+
+def variants(sc, b):
+    """base + the same arrivals trickling in one byte per tick (reads that complete no message)"""
+    import copy
+    out = [('base', sc)]
+    steps = sc['conns'][0]['steps']
+    if any(s['kind'] == 'data' and s.get('items') for s in steps[1:]):
+        sc2 = copy.deepcopy(sc)
+        new = []
+        first = True
+        for s in sc2['conns'][0]['steps']:
+            if s['kind'] == 'data' and not first:
+                new.append({"kind": "drain_item", "dt": 1, "first_dt": s.get('dt', 0)})
+            else:
+                new.append(s)
+            if s['kind'] == 'data':
+                first = False
+        sc2['conns'][0]['steps'] = new
+        out.append(('trickle', sc2))
     return out
 
 
@@ -61,7 +82,7 @@ def run(tier, seed):
         rule='parameter grid (poll, ping_rate, ping_timeout, close_timeout incl. 0) x every history of {time-out, pong / text / close '
              'reply arriving after 0..poll ticks, EOF, permanent silence} on the virtual tick grid x application close at Ready or at '
              'any Poll; non-trivial = distinct timed event sequences with an automatic ping, Unresponsive or >= 3 polls',
-        nontrivial=nontrivial, anchors=anchors, sample_keys=('ev', 'wr'))
+        nontrivial=nontrivial, anchors=anchors, variants=variants, sample_keys=('ev', 'wr'))
     need = {'unresponsive', 'auto_ping', 'three_polls', 'pong', 'forced_disconnect', 'close_completed'}
     missing = sorted(need - seen)
     return r.finish(vacuous=('never exercised: %s' % missing) if missing else None)
